@@ -775,7 +775,7 @@ function ticks() { Promise.resolve().then(function() { log("t1"); }).then(functi
 function settle(k, rej, v) { var d = dfd[k] || (dfd[k] = mkd()); (rej ? d.rej : d.res)(v); ticks(); }
 function astart() {
 	dfd = {}; wo.wx = 0; self = undefined;
-	var pr = G(7, 8);
+	var pr = f2(0, G(7, 8)); // called with pending operands on the stack
 	log("started:" + str(pr));
 	pr.then(function(v) { log("F:" + str(v)); }, function(e) { log("R:" + str(e)); });
 	ticks();
